@@ -423,7 +423,10 @@ OneOfAnyArgs ==
     { M("string_any", << <<Str("type"), Str("a")>>, <<Str("x"), x>> >>) :
         x \in { L("any", <<I64(1), Str("a")>>), L("any", <<I64(1), I64(2)>>), I64(1), M("any_any", << <<I64(1), I64(1)>>, <<Str("a"), I64(1)>> >>),
                 L("any", << L("any", <<>>), M("any_any", <<>>) >>) } }
-DiscRaws == { Str("a"), Str("b"), Str("1"), Str("2"), Str("c"), I64(1), I("uint64", 1), I64(2), I64(9), F64(2), B(TRUE), Nil, S("named", "a") }
+DiscRaws == { Str("a"), Str("b"), Str("1"), Str("2"), Str("c"), I64(1), I("uint64", 1), I64(2), I64(9), F64(2), B(TRUE), Nil, S("named", "a"),
+              \* not integers, though their truncation is a declared key: 1.5, 2.5, 0.5, -0.5 (float64 / float32), NaN, Inf, "1.5"
+              F64(3), F("float32", 3), F64(5), F64(1), F64(-1), FS("float64", "nan"), FS("float64", "+inf"), FS("float32", "-inf"), Str("1.5"), Str("1.0"),
+              F("float32", 4) }
 Bodies == { <<>>, << <<Str("a"), I64(1)>> >>, << <<Str("a"), I64(3)>> >>, << <<Str("b"), Str("a")>> >>, << <<Str("c"), B(TRUE)>> >>,
             << <<Str("a"), I64(1)>>, <<Str("x"), I64(1)>> >> }
 OneOfRawArgs ==
@@ -517,16 +520,26 @@ InitC04 ==
           \E op \in {"unser", "compat"} : vec = Vec(leaf, op, x)
 
 DisSet == IF Deep THEN BOOLEAN ELSE {FALSE}
+\* three properties, one of them with a rule list of length TWO over the other two (any / none-of semantics)
+L2Prop(name, type, kind, others) ==
+    CASE kind = "rif" -> PropS(name, type, FALSE, others, <<>>, <<>>, None, FALSE, FALSE)
+      [] kind = "rifn" -> PropS(name, type, FALSE, <<>>, others, <<>>, None, FALSE, FALSE)
+      [] kind = "cf" -> PropS(name, type, FALSE, <<>>, <<>>, others, None, FALSE, FALSE)
+Objs3L2(layout) ==
+    {ObjectS("O", << L2Prop("a", TA, k, <<"b", "c">>), Prop("b", TB, FALSE), Prop("c", TC, FALSE) >>, layout, FALSE) : k \in {"rif", "rifn", "cf"}}
+    \cup {ObjectS("O", << Prop("a", TA, FALSE), Prop("b", TB, FALSE), L2Prop("c", TC, k, <<"a", "b">>) >>, layout, FALSE) : k \in {"rif", "rifn", "cf"}}
+    \cup {ObjectS("O", << L2Prop("a", TA, "rifn", <<"b", "c">>), L2Prop("b", TB, "cf", <<"a", "c">>), L2Prop("c", TC, "rif", <<"a", "b">>) >>, layout, FALSE)}
 C03Objects ==
     Objs1("map", BOOLEAN, {FALSE}) \cup Objs2("map", DisSet, {FALSE})
     \cup Objs1("ptrs", BOOLEAN, {FALSE}) \cup Objs2("ptrs", DisSet, {FALSE})
+    \cup Objs3L2("map") \cup Objs3L2("ptrs")
     \cup (IF Deep THEN Objs3("map") \cup Objs3("ptrs") ELSE {})
 InitC03 ==
     \/ \E s \in C03Objects :
           \/ \E x \in ObjRawArgs(s) : vec = Vec(s, "unser", x)
           \/ Len(s.props) <= 2 /\ ~(\E i \in DOMAIN s.props : s.props[i].disabled) /\ \E x \in ObjRawExtra(s) : \E op \in {"unser", "compat"} : vec = Vec(s, op, x)
           \/ \E x \in NatArgs(s) : vec = Vec(s, "valid", x)
-          \/ (Deep \/ Len(s.props) = 1 \/ s.layout = "map") /\ \E x \in NatArgs(s) : vec = Vec(s, "ser", x)
+          \/ (Deep \/ Len(s.props) # 2 \/ s.layout = "map") /\ \E x \in NatArgs(s) : vec = Vec(s, "ser", x)
           \/ Len(s.props) = 1 /\ \E x \in NatExtra(s) : \E op \in {"valid", "ser"} : vec = Vec(s, op, x)
     \/ \E s \in SubObjects : \E x \in SubRawArgs : vec = Vec(s, "unser", x)
     \/ \E s \in ZooObjs : \E x \in ZooRaw : vec = Vec(s, "unser", x)
@@ -569,7 +582,18 @@ C01ContainerRaw(s) ==
                \cup {L("bytes", <<I("uint8", 1), I("uint8", 2)>>)})
     ELSE {M("any_any", ps) : ps \in {q \in GoodPairs : Len(q) <= 2}}
          \cup {M("string_any", << <<Str("a"), x>> >>) : x \in {L("any", <<I64(1), Str("2")>>), L("any", <<>>), F("float32", 3), I64(IMax), FS("float64", "nan")}}
+MBSchemas == {StringS(p[1], p[2], None) : p \in { <<None, Some(1)>>, <<None, Some(2)>>, <<None, Some(5)>>, <<Some(2), None>>, <<Some(6), None>>,
+                                                  <<Some(3), Some(5)>>, <<None, None>> }}
+             \cup {ListS(StringS(None, Some(2), None), None, None, t) : t \in BOOLEAN}
+             \cup {ObjectS("O", <<Prop("b", StringS(None, Some(5), None), TRUE)>>, lay, FALSE) : lay \in {"map", "ptrs"}}
+MBRaw(s) ==
+    LET toks == {Str(t) : t \in G("g_mb") \cup {"a", "ab"}} IN
+    CASE s.kind = "string" -> toks
+      [] s.kind = "list" -> {L("any", <<x>>) : x \in toks}
+      [] s.kind = "object" -> {M("any_any", << <<Str("b"), x>> >>) : x \in toks}
 InitC01 ==
+    \* (the chain is run whenever the CODE accepts: these vectors are not filtered by the model's verdict)
+    \/ \E s \in MBSchemas : \E x \in MBRaw(s) : vec = VecChain(s, x)
     \/ \E s \in C01Scalars \cup C02Scalars : \E x \in ScalarRaw(s) \cup (IF s.kind = "any" THEN AnyRaw ELSE {}) : Accepting(s, x) /\ vec = VecChain(s, x)
     \/ \E s \in C01Containers : \E x \in C01ContainerRaw(s) : Accepting(s, x) /\ vec = VecChain(s, x)
     \/ Deep /\ \E s \in C02Lists : \E x \in RawLists : Accepting(s, x) /\ vec = VecChain(s, x)
@@ -593,8 +617,9 @@ VecPath(c, op) ==
         mod |-> Outcome(c.s, BaseOp(op), arg), goodok |-> Outcome(c.s, BaseOp(op), good).ok, sub |-> <<>>,
         path |-> ExpectedPath(c), fault |-> c.fault, key |-> c.key]
 InitC17 ==
-    \E c \in Cases(IF Deep THEN 3 ELSE 2) : \E op \in {"path_unser", "path_valid"} :
-        (op = "path_valid" => c.nbad.some) /\ vec = VecPath(c, op)
+    \E leaf \in LeafCases : \E ks \in KindSeqs(IF Deep THEN 3 ELSE 2) :
+        LET n == Nest(ks, leaf) IN
+        n.ok /\ \E op \in {"path_unser", "path_valid"} : (op = "path_valid" => n.c.nbad.some) /\ vec = VecPath(n.c, op)
 
 InitBind ==
     \/ vec = [fam |-> "bind", what |-> "strings", toks |-> TokSeq, dec |-> DecSeq, ftok |-> FSeq,
